@@ -494,8 +494,11 @@ where
     fn textual_order(&mut self) -> Vec<ResultTextSelection<'store>> {
         let mut v: Vec<_> = self.collect();
         v.sort_unstable_by(|a, b| {
+            //equal ranges of different resources must not end up between two copies of the same
+            //text selection, or dedup() below does not see the copies next to each other
             a.partial_cmp(b)
                 .expect("PartialOrd must work for ResultTextSelection")
+                .then_with(|| a.resource().handle().cmp(&b.resource().handle()))
         });
         v.dedup();
         v
